@@ -9,17 +9,17 @@ func init() {
 	register(&Property{
 		ID:          "C01",
 		Explanation: "Decided (necessary conditions, all inputs/histories): key agreement along the whole value path (K1 literal shapes, K2 accessor-argument table over every containerStore/containerWriter call site, X-visit-extract: keys registered by Provide = keys written by Extract); each executor calls the node's own function, not in a loop, with result #0 of BuildList on its own parameter list in its own view and only after BuildList succeeded (M-args); Invoke returns nil only after having called the function (M-once); zero values only for optional parameters with no provider / missing dependencies (G-optzero); staged results committed to the home scope, providers called with their own OrigScope (HOME-VIEW); provider/decorator executions are triggered only by lookups under the parameter's own key (T-provenance); every delivered value is read from a scope store (T-same-instance). NOT decided: that the values are right for every history (cache staleness, which decorator is nearest at run time).",
-		Rules:       []RuleFn{ruleK1("K1"), ruleK2("K2"), ruleVisitExtract("X-visit-extract"), ruleMArgs("M-args"), ruleMOnce("M-once"), ruleOptZero("G-optzero"), ruleHomeView("HOME-VIEW"), ruleProvenance("T-provenance"), ruleSameInstance("T-same-instance"), ruleDecFirst("M-dec-first"), ruleMShallow("M-shallow"), ruleVisitRecords("X-visit-records"), ruleNoEarlyExit("L-no-early-exit")},
+		Rules:       []RuleFn{ruleK1("K1"), ruleK2("K2"), ruleVisitExtract("X-visit-extract"), ruleMArgs("M-args"), ruleMOnce("M-once"), ruleOptZero("G-optzero"), ruleHomeView("HOME-VIEW"), ruleProvenance("T-provenance"), ruleSameInstance("T-same-instance"), ruleDecFirst("M-dec-first"), ruleMShallow("M-shallow"), ruleVisitRecords("X-visit-records"), ruleNoEarlyExit("L-no-early-exit"), ruleSetters("W-setters")},
 	})
 	register(&Property{
 		ID:          "C02",
 		Explanation: "Decided: typestate of the done-flags constructorNode.called and decoratorNode.state (E-TS: user function dominated by the not-done edge; every re-entrant call site between test and execution is followed by a re-test or protected by the in-progress marker; done value stored only after ExtractList succeeded and nothing can fail afterwards; single writer); every decorator.Call site guarded path-sensitively by State() != decoratorOnStack on the same decorator (G-onstack); all consumers read the committed instance from a scope store, never fresh results (T-same-instance). NOT decided: pointer identity as observed by arbitrary consumers.",
-		Rules:       []RuleFn{ruleTypestate("E-TS"), ruleOnStack("G-onstack"), ruleSameInstance("T-same-instance")},
+		Rules:       []RuleFn{ruleTypestate("E-TS"), ruleOnStack("G-onstack"), ruleSameInstance("T-same-instance"), ruleSetters("W-setters")},
 	})
 	register(&Property{
 		ID:          "C03",
 		Explanation: "Decided completely (modulo the trusted base): in the sound CHA call graph of the whole program, refined only by dropping signature-matched edges to closures whose value never escapes, no exported function or method of dig other than Invoke can reach a user-code sink (call through an invokerFn, call of a Callback, reflect.Value.Call) - Provide, Decorate, Scope, Visualize, String, New, option constructors, RootCause, IsCycleDetected, CanVisualizeError never execute user functions; option interfaces are sealed. Also decided: executions are triggered only by lookups under the parameter's own key (T-provenance), soft groups call no provider (G-soft), the consumer runs only after BuildList succeeded (M-args). NOT decided: that every not-yet-built constructor in the closure has run when Invoke succeeds (liveness); fmt calling String()/Error() of user values is not 'executing user-supplied functions' in the property's sense.",
-		Rules:       []RuleFn{ruleWReach("W-reach", "CHA"), ruleSealedOptions("X-sealed"), ruleProvenance("T-provenance"), ruleSoft("G-soft"), ruleMArgs("M-args"), ruleNoEarlyExit("L-no-early-exit"), ruleVisitRecords("X-visit-records")},
+		Rules:       []RuleFn{ruleWReach("W-reach", "CHA"), ruleSealedOptions("X-sealed"), ruleProvenance("T-provenance"), ruleSoft("G-soft"), ruleMArgs("M-args"), ruleNoEarlyExit("L-no-early-exit"), ruleVisitRecords("X-visit-records"), ruleDecFirst("M-dec-first")},
 	})
 	register(&Property{
 		ID:          "C04",
@@ -34,7 +34,7 @@ func init() {
 	register(&Property{
 		ID:          "C06",
 		Explanation: "Decided for every rejection cause at once (all error exits of the call trees of Provide and Decorate, including those no test provokes): every persistent write that can be followed by an error return is compensated on the same object (graph nodes by snapshot/rollback over the home scope's subtree, providers by a restoring loop over the saved entries on the same scope) or does not exist (E-ATOM); the registration fields have no writer outside their transactions (W-owners); duplicate decorators are rejected before anything is registered (G-decorate-dup); registration never executes user code (W-reach). NOT decided: equality of all later behaviour with the history without the call (a relation between runs); the check shows that no persistent location differs.",
-		Rules:       []RuleFn{ruleAtomProvide("E-ATOM"), ruleAtomDecorate("E-ATOM"), ruleWOwners("W-owners"), ruleDecorateDup("G-decorate-dup"), ruleWReach("W-reach", "CHA")},
+		Rules:       []RuleFn{ruleAtomProvide("E-ATOM"), ruleAtomDecorate("E-ATOM"), ruleWOwners("W-owners"), ruleDecorateDup("G-decorate-dup"), ruleWReach("W-reach", "CHA"), rulePresence("X-providers-presence"), ruleDupKey("G-dupkey")},
 	})
 	register(&Property{
 		ID:          "C07",
@@ -44,22 +44,22 @@ func init() {
 	register(&Property{
 		ID:          "C08",
 		Explanation: "Decided: no function reachable from resolution reads Scope.childScopes - navigation is only up through parentScope, nearest first (W-scopes); Export re-targets the home scope to the root exactly under opts.Exported while the original scope stays the receiver and is what providers are called with (W-scopes, HOME-VIEW); propagation reaches the whole subtree (appendSubscopes/newGraphNode recursion) and child scopes created later copy all nodes with their orders (X-orders); option-settable configuration is inherited by children (X-inherit). NOT decided: 'nearest wins' as an outcome beyond the first-hit loop structure; value caching across scopes.",
-		Rules:       []RuleFn{ruleScopes("W-scopes"), ruleHomeView("HOME-VIEW"), ruleOrders("X-orders"), ruleInherit("X-inherit"), ruleK2("K2"), ruleMArgs("M-args"), ruleMShallow("M-shallow"), ruleDecFirst("M-dec-first"), ruleEdges("X-edges")},
+		Rules:       []RuleFn{ruleScopes("W-scopes"), ruleHomeView("HOME-VIEW"), ruleOrders("X-orders"), ruleInherit("X-inherit"), ruleK2("K2"), ruleMArgs("M-args"), ruleMShallow("M-shallow"), ruleDecFirst("M-dec-first"), ruleEdges("X-edges"), ruleSetters("W-setters")},
 	})
 	register(&Property{
 		ID:          "C09",
 		Explanation: "Decided: key literals set t and at most one of name/group, accessor kinds and map kinds agree (K1); every accessor call site passes (discriminator, type) of one IR object in the shape its counterpart uses (K2); group names are never empty where they enter the IR, so group and unnamed keys cannot coincide in the shared providers map (K3); every name key, including As keys, passes the duplicate check against the constructor's own keys and the home scope's providers, name and group are mutually exclusive at all three entry points, Provide registers only after validation (G-dupkey); registered keys = written keys (X-visit-extract). NOT decided: the As-replaces-concrete-type convention as an outcome, pointer sharing among As keys.",
-		Rules:       []RuleFn{ruleK1("K1"), ruleK2("K2"), ruleK3("K3"), ruleDupKey("G-dupkey"), ruleVisitExtract("X-visit-extract"), ruleVisitRecords("X-visit-records")},
+		Rules:       []RuleFn{ruleK1("K1"), ruleK2("K2"), ruleK3("K3"), ruleDupKey("G-dupkey"), ruleVisitExtract("X-visit-extract"), ruleVisitRecords("X-visit-records"), rulePresence("X-providers-presence"), ruleOptFlow("X-optflow")},
 	})
 	register(&Property{
 		ID:          "C10",
 		Explanation: "Decided: group accessors agree on (Group, Type.Elem()) / (Group, Type) conventions (K2); callGroupProviders calls every provider of every enclosing scope and the concatenation visits every enclosing scope - no exit other than an error (L-no-early-exit); feeders run at most once and submit through one staged commit (E-TS, E-stage, HOME-VIEW); each value map has one writer, getValueGroup hands out a fresh copy (W-owners, L-no-early-exit); the returned slice is assembled only from getValueGroup(pt.Group, pt.Type.Elem()) (T-same-instance); group providers are found only under the parameter's own key (T-provenance). NOT decided: the multiset itself; that the shuffle is a permutation (trusts rand.Perm).",
-		Rules:       []RuleFn{ruleK2("K2"), ruleNoEarlyExit("L-no-early-exit"), ruleTypestate("E-TS"), ruleStaging("E-stage"), ruleHomeView("HOME-VIEW"), ruleWOwners("W-owners"), ruleSameInstance("T-same-instance"), ruleProvenance("T-provenance"), ruleVisitExtract("X-visit-extract"), ruleVisitRecords("X-visit-records")},
+		Rules:       []RuleFn{ruleK2("K2"), ruleNoEarlyExit("L-no-early-exit"), ruleTypestate("E-TS"), ruleStaging("E-stage"), ruleHomeView("HOME-VIEW"), ruleWOwners("W-owners"), ruleSameInstance("T-same-instance"), ruleProvenance("T-provenance"), ruleVisitExtract("X-visit-extract"), ruleVisitRecords("X-visit-records"), ruleSetters("W-setters")},
 	})
 	register(&Property{
 		ID:          "C11",
 		Explanation: "Decided: in paramGroupedSlice.Build every call that can reach a constructor execution other than through a decorator execution is dominated by !Soft; Soft is set only from parseGroupString's \"soft\" option and is consumed (rejected) on results (G-soft, X-encodings/X-group-parse). NOT decided: the clause 'contains all members of earlier executions and of sibling fields' - it depends on the run-time effect of the field reordering in paramObject.Build; a static recogniser for 'soft fields are built last' would be tied to today's spelling and fire on equivalent rewrites, so none is armed.",
-		Rules:       []RuleFn{ruleSoft("G-soft"), ruleEncodings("X-encodings"), ruleSoftLast("L-soft-last"), ruleIRImmutable("X-ir-immutable")},
+		Rules:       []RuleFn{ruleSoft("G-soft"), ruleEncodings("X-encodings"), ruleSoftLast("L-soft-last"), ruleIRImmutable("X-ir-immutable"), ruleNoEarlyExit("L-no-early-exit"), ruleSameInstance("T-same-instance")},
 	})
 	register(&Property{
 		ID:          "C12",
@@ -74,12 +74,12 @@ func init() {
 	register(&Property{
 		ID:          "C14",
 		Explanation: "Decided: (P1) in every public entry the user function reaches dig code or reflect.ValueOf only after the untyped-nil and Kind()==Func checks; (E-REFL) each of the ~60 partial reflect operations in non-test code is discharged by a dominating Kind test on the same value (path-sensitive where the test is correlated with a flag), a function contract checked at every call site, a field invariant checked where the IR value is constructed, or the IsIn/IsOut=>struct implication; a handful is listed as assumed with its reason; group names are non-empty (K3, otherwise an invalid reflect.Value reaches Call); the discarded-ok lookups rest on K2 + X-visit-extract; rejected input changes nothing (E-ATOM). NOT decided: panics from indexing, nil maps, reflect.Value.Set assignability, user String() methods; nil option values; String() of option values.",
-		Rules:       []RuleFn{ruleP1("P1"), ruleRefl("E-REFL"), ruleK3("K3"), ruleK2("K2"), ruleVisitExtract("X-visit-extract"), ruleVisitRecords("X-visit-records"), ruleAtomProvide("E-ATOM"), ruleAtomDecorate("E-ATOM")},
+		Rules:       []RuleFn{ruleP1("P1"), ruleRefl("E-REFL"), ruleK3("K3"), ruleK2("K2"), ruleVisitExtract("X-visit-extract"), ruleVisitRecords("X-visit-records"), ruleAtomProvide("E-ATOM"), ruleAtomDecorate("E-ATOM"), ruleMapDeref("G-maplookup-deref")},
 	})
 	register(&Property{
 		ID:          "C15",
 		Explanation: "Decided: both encodings are lowered to one IR and everything downstream is structural recursion over it - the value sets of the param/result interfaces are computed and every dispatcher handles them or has a reasoned exception; dispatchers and Dot*/Build/Extract iterate the same child slices in order (X-switch); the variadic parameter and error results are dropped by exactly the intended conditions, the name/group option and tag reach the same IR fields through the same parser with the same validations (X-encodings). NOT decided: the equivalence itself (a relation between two programs' behaviours).",
-		Rules:       []RuleFn{ruleSwitch("X-switch"), ruleEncodings("X-encodings"), ruleMissingPredicate("G-missing"), ruleIRImmutable("X-ir-immutable")},
+		Rules:       []RuleFn{ruleSwitch("X-switch"), ruleEncodings("X-encodings"), ruleMissingPredicate("G-missing"), ruleIRImmutable("X-ir-immutable"), ruleOptFlow("X-optflow")},
 	})
 	register(&Property{
 		ID:          "C16",
@@ -89,7 +89,7 @@ func init() {
 	register(&Property{
 		ID:          "C17",
 		Explanation: "Decided: the only reflective call of user code is dig.defaultInvoker; defaultInvoker/dryInvoker are referenced only by newScope and the DryRun option; every executor calls through an invokerFn read from the scope; Scope.invokerFn has exactly three writers and no mode-branch reader, so all validation code is shared by construction; dryInvoker reaches no sink (W-sink); children inherit the invoker and the other option-settable fields (X-inherit). NOT decided: 'same verdicts' as a relation between a dry and a normal run (follows from code sharing only up to the zero values the fake results take).",
-		Rules:       []RuleFn{ruleWSink("W-sink"), ruleInherit("X-inherit")},
+		Rules:       []RuleFn{ruleWSink("W-sink"), ruleInherit("X-inherit"), ruleDryTotal("X-dry-total")},
 	})
 	register(&Property{
 		ID:          "C18",
@@ -99,7 +99,7 @@ func init() {
 	register(&Property{
 		ID:          "C19",
 		Explanation: "Decided: addNodes adds one cluster per element of s.nodes with that constructor's own lists and covers every scope; s.nodes grows only at provide's commit point; every non-constant Fprintf argument of the DOT writers is quoted or structurally safe; every argument of an HTML-like label format is html-escaped; edges are dashed exactly for optional parameters; CanVisualizeError and updateGraph agree on the errVisualizer chain walk and its three implementers (X-viz, E-ATOM, W-owners). NOT decided: failure colouring and pruning (run-time graph algorithm), exact node and edge sets.",
-		Rules:       []RuleFn{ruleViz("X-viz"), ruleAtomProvide("E-ATOM"), ruleWOwners("W-owners"), ruleRootCauseSiblings("X-rootcause")},
+		Rules:       []RuleFn{ruleViz("X-viz"), ruleAtomProvide("E-ATOM"), ruleWOwners("W-owners"), ruleRootCauseSiblings("X-rootcause"), ruleMapDeref("G-maplookup-deref")},
 	})
 	register(&Property{
 		ID:          "C20",
